@@ -211,6 +211,13 @@ impl<'a> Ctx<'a> {
         if port != 0 && proto == Proto::Tcp && exp == BindExp::Ok && self.lingering.contains(&(h, port)) {
             exp = BindExp::Either;
         }
+        // ... and a bind to port 0 may find the range exhausted while the only ports the model has free are lingering ones
+        if port == 0 && proto == Proto::Tcp && exp == BindExp::Ok {
+            let ling = self.lingering.iter().filter(|(lh, _)| *lh == h).count();
+            if ling > 0 && self.m.free_ephemeral(h, proto, ip.is_ipv4()) <= ling {
+                exp = BindExp::Either;
+            }
+        }
         let Some(res) = self.real_bind(h, proto, SocketAddr::new(ip, port)) else {
             self.herr = Some(format!("{what}: bind future was pending"));
             return None;
@@ -684,6 +691,7 @@ impl<'a> Ctx<'a> {
             vec![sock]
         };
         let mut any = false;
+        let mut closed_stream = false;
         for (k, id) in ids.into_iter().enumerate() {
             // half of the connection closes are sequential: the first end closes, the wire settles, and only then
             // the other end follows as the passive closer (its host says nothing of its own accord afterwards)
@@ -692,6 +700,9 @@ impl<'a> Ctx<'a> {
                 self.rep.probes.inc("connection_closed_one_end_after_the_other");
             }
             if let Some((h, mut s)) = self.real.remove(&id) {
+                if matches!(s, RSock::Stream(_)) {
+                    closed_stream = true;
+                }
                 // every third close of a stream shuts its write side down first (half-close, then drop)
                 if i % 3 == 0 {
                     if let RSock::Stream(st) = &mut s {
@@ -710,7 +721,8 @@ impl<'a> Ctx<'a> {
         if any {
             self.log.tag("close");
             self.rep.probes.inc("closed");
-            if is_conn {
+            // (also the surviving end of a connection whose other end was dropped earlier without a wire round)
+            if is_conn || closed_stream {
                 self.settle(12);
             }
         } else {
@@ -852,6 +864,10 @@ impl<'a> Ctx<'a> {
                 self.real.insert(id, (h, RSock::Stream(st)));
                 self.real.insert(id + SRV, (dh, RSock::Stream(srv)));
                 self.rep.probes.inc("tcp_established");
+            }
+            (SynExp::Listener(..), other) if kindr == "TimedOut" && self.lingering.iter().any(|(lh, _)| *lh == h) => {
+                drop(other);
+                self.rep.probes.inc("tcp_connect_from_a_host_with_a_lingering_connection_unjudged");
             }
             (SynExp::Listener(dh, lid), other) => {
                 drop(other);
@@ -1305,6 +1321,11 @@ impl<'a> Ctx<'a> {
                             verdict.get_or_insert(("TcpNotAccepted", format!("{who} (client {la}) returned Ok but listener id{lid} on h{dh} did not hand it out")));
                         }
                     }
+                }
+                // a connection this host left lingering was given up silently; its accepted end may still be open on the
+                // listener's host, and a probe that draws the same source port meets that stale connection
+                (SynExp::Listener(..), _) if kindr == "TimedOut" && self.lingering.iter().any(|(lh, _)| *lh == p.h) => {
+                    self.rep.probes.inc("tcp_probe_from_a_host_with_a_lingering_connection_unjudged");
                 }
                 (SynExp::Listener(dh, lid), _) => {
                     verdict.get_or_insert(("TcpConnectResult", format!("{who} gave {kindr}; listener id{lid} on h{dh} is bound there, Ok required")));
